@@ -12,7 +12,7 @@ for n in $NAMES; do
   if ! git -C $W apply $P; then echo "$n: patch does not apply"; git -C /repo worktree remove --force $W; continue; fi
   cd /verif && VERIF_REPO=$W ./check $ID $TIER > /tmp/matrix_$n.out 2>&1; rc=$?
   git -C /repo worktree remove --force $W
-  git -C /verif checkout -- evidence/$ID.json 2>/dev/null
+
   v=$(grep -c '^VIOLATION' /tmp/matrix_$n.out)
   echo "$n: exit=$rc violations=$v $(grep -m1 -A1 '^VIOLATION' /tmp/matrix_$n.out | tail -1 | cut -c1-160)"
   python3 - "$n" "$ID" "$rc" "$TIER" <<'PY'
